@@ -225,4 +225,13 @@ theorem listing_count_total {V} (items res : List (Bytes × V)) (req : Paginate.
     (h : Paginate.paginate items req = .ok (res, page)) : page.total = items.length :=
   Paginate.paginate_total hk hc h
 
+/-! ## F25 — the one page request for which an offset walk loses items
+
+`query.Paginate` computes `end := offset + limit` in `uint64`; the model wraps as Go does.  With the largest limit and
+a non-zero offset the page is empty although items remain; one less and it is complete. -/
+example : Paginate.pageByOffset [([1], ()), ([2], ()), ([3], ())] 1 (2 ^ 64 - 1) true false =
+    .ok ([], { nextKey := [], total := 3 }) := by decide
+example : Paginate.pageByOffset [([1], ()), ([2], ()), ([3], ())] 1 (2 ^ 64 - 2) true false =
+    .ok ([([2], ()), ([3], ())], { nextKey := [], total := 3 }) := by decide
+
 end Panacea.C13
